@@ -6,7 +6,7 @@ from collections import Counter
 from .. import coqenc as E
 from ..passes import Case, run_passes
 from ..runner import jval
-from ..valgen import Gen, copy_value
+from ..valgen import Gen, copy_value, spoil
 from ..condgen import CondGen
 from ..pathgen import PathGen
 from ..specgen import SpecGen, path_leaves, d12_flag
@@ -66,6 +66,14 @@ def run(tier, seed, model_ok, spec_ok, replay=None):
         full = E.run_outcome(lambda: p.to_spec())
         if full[0] == "ok":
             dist["to_spec"] += 1
+            keep = copy.deepcopy(full[1])
+            spoil(full[1])
+            again = E.run_outcome(lambda: p.to_spec())
+            if again[0] != "ok" or repr(again[1]) != repr(keep):
+                direct.append({"kind": "direct", "what": "a second to_spec() of the same path differs from the first after the "
+                               "caller edited the first result", "path": pt.descr()[:300], "first": repr(keep)[:300],
+                               "second": repr(again[1])[:300]})
+            full = ("ok", keep)
             try:
                 try:
                     fj = json.loads(json.dumps(full[1]))
@@ -88,7 +96,15 @@ def run(tier, seed, model_ok, spec_ok, replay=None):
             direct.append({"kind": "direct", "what": "part specs emitted for a path with a modifier or source data (they cannot "
                            "represent it)", "path": pt.descr()[:300], "specs": repr(out[1])[:300]})
             continue
-        specs = out[1]
+        specs = copy.deepcopy(out[1])
+        # every serialisation is faithful, whatever the caller did with an earlier result
+        spoil(out[1])
+        again = E.run_outcome(lambda: p.to_part_specs())
+        if again[0] != "ok" or repr(again[1]) != repr(specs):
+            direct.append({"kind": "direct", "what": "a second to_part_specs() of the same path differs from the first after the "
+                           "caller edited the first result", "path": pt.descr()[:300], "first": repr(specs)[:300],
+                           "second": repr(again[1])[:300]})
+            continue
         try:
             txt = json.dumps(specs)
             specs2 = json.loads(txt)
